@@ -120,6 +120,33 @@ def logger_rules(chk):
         mp = args[2]
         if mp[0] == "call" and mp[1] == ("glob", "ext:builtins.dict") and not mp[2] and all(k is not None for k, _v in mp[3]):
             mp = ("dict", tuple((("const", k), val) for k, val in mp[3]))  # dict(a=..., b=...) is the literal {"a": ..., "b": ...}
+        if mp[0] == "attr" and mp[1] == SELF:
+            chk.bad(rule, s.qual, "every record is emitted with the SAME mapping object (self.%s, updated in place on each write): a record that is formatted later -- a MemoryHandler, a queue handler, anything that keeps records -- shows the values of the last write, not of its own" % mp[2], node=s.node, stmt="fields-shared %s" % mp[2])
+            ok = False
+            continue
+        if mp[0] == "dict":
+            # {**{f: getattr(self.target, f) for f in ("a", "b")}} over a literal tuple is the literal dict
+            entries = []
+            for k, val in mp[1]:
+                vs = strip_sites(val) if k is None else None
+                if k is None and vs[0] == "comp" and vs[1] == "dict" and len(vs[3]) == 1 and not vs[3][0][2] and vs[3][0][1][0] in ("tuple", "list") and all(x[0] == "const" for x in vs[3][0][1][1]) and vs[2][0] == "tuple" and len(vs[2][1]) == 2:
+                    var = vs[3][0][0]
+
+                    def subst(t, c, var=var):
+                        if t == var:
+                            return c
+                        if isinstance(t, tuple):
+                            t2 = tuple(subst(x, c) for x in t)
+                            if len(t2) >= 4 and t2[0] == "call" and t2[1] == ("glob", "ext:builtins.getattr") and len(t2[2]) == 2 and t2[2][1][0] == "const":
+                                return ("attr", t2[2][0], t2[2][1][1])
+                            return t2
+                        return t
+
+                    for c in vs[3][0][1][1]:
+                        entries.append((subst(vs[2][1][0], c), subst(vs[2][1][1], c)))
+                else:
+                    entries.append((k, val))
+            mp = ("dict", tuple(entries))
         if mp[0] != "dict" or any(k is None or k[0] != "const" for k, _v in mp[1]):
             chk.undecided(rule, s.qual, "the field mapping is not a literal dict", node=s.node)
             ok = False
